@@ -58,7 +58,7 @@ Proof.
     + apply andb_true_iff. split; [lia | reflexivity].
     + destruct (len <=? k) eqn:E3; [discriminate|].
       apply andb_true_iff. split; lia.
-  - (* ConstConv *) intros t v vc id H. cbn [aconst_stmt rconst_stmt] in *. rewrite gen_call_rechecked in H.
+  - (* ConstConv *) intros t v vc id H. cbn [aconst_stmt rconst_stmt] in *. unfold conv_errs_pol in H. rewrite gen_call_rechecked in H.
     cbn [negb] in H. rewrite andb_false_r in H.
     destruct (type_info t) as [[b sg]|] eqn:E; [|discriminate].
     rewrite <- inrange_fits by (eapply type_info_pos; eauto).
@@ -117,7 +117,7 @@ Qed.
 
 Lemma goto_sound : forall id l fs, agoto id l fs = [] -> rgoto l fs = true.
 Proof.
-  intros id l fs H. unfold agoto in H. apply app_nil_inv in H as [H _]. unfold agoto_mix in H. unfold rgoto.
+  intros id l fs H. unfold agoto, agoto_pol in H. apply app_nil_inv in H as [H _]. unfold agoto_mix in H. unfold rgoto.
   destruct (find_and_check (fun f => has_label l (seen f)) hd_sofar fs) as [[|]|] eqn:E1.
   - rewrite (back_some l fs E1). reflexivity.
   - discriminate.
@@ -155,7 +155,7 @@ Qed.
 
 Lemma goto_defer_sound : forall id l fs, agoto id l fs = [] -> goto_leaves_defer l fs = false.
 Proof.
-  intros id l fs H. unfold agoto in H. apply app_nil_inv in H as [_ H].
+  intros id l fs H. unfold agoto, agoto_pol in H. apply app_nil_inv in H as [_ H].
   rewrite gen_goto_checked in H. simpl in H.
   destruct (goto_out_of_deferblock l fs) eqn:E; [discriminate|]. clear H.
   unfold goto_out_of_deferblock in E. unfold goto_leaves_defer. rewrite walk_back in E.
@@ -341,7 +341,7 @@ Proof.
     rewrite chain_lookup_flat. pose proof (lookup_rel fp x _ _ Hf) as Hl.
     destruct (lookup x (flat ch)) as [y|], (rlookup x e) as [d|]; try contradiction; [|split; discriminate].
     rewrite (access_use ch fp y d Hu Hl). simpl. destruct (use_ok fp d); split; auto; discriminate.
-  - (* AssignF *) intros x ch e fp id Hne [Hf Hu]. cbn [aname_stmt rname_stmt]. unfold forced_errs.
+  - (* AssignF *) intros x ch e fp id Hne [Hf Hu]. cbn [aname_stmt rname_stmt]. unfold forced_errs, forced_errs_pol.
     rewrite gen_forced_checked.
     rewrite chain_lookup_flat. pose proof (lookup_rel fp x _ _ Hf) as Hl.
     destruct (lookup x (flat ch)) as [y|], (rlookup x e) as [d|]; try contradiction; [|split; discriminate].
@@ -350,7 +350,7 @@ Proof.
       * destruct (path_eqb o fp); simpl; split; auto; discriminate.
       * destruct (path_eqb o fp); simpl; split; discriminate.
     + unfold const_errs. rewrite Hl. simpl. split; discriminate.
-  - (* UseF *) intros x ch e fp id Hne [Hf Hu]. cbn [aname_stmt rname_stmt]. unfold forced_errs.
+  - (* UseF *) intros x ch e fp id Hne [Hf Hu]. cbn [aname_stmt rname_stmt]. unfold forced_errs, forced_errs_pol.
     rewrite gen_forced_checked.
     rewrite chain_lookup_flat. pose proof (lookup_rel fp x _ _ Hf) as Hl.
     destruct (lookup x (flat ch)) as [y|], (rlookup x e) as [d|]; try contradiction; [|split; discriminate].
@@ -375,7 +375,7 @@ Proof.
     + unfold up_fun_id at 1. cbn [filter nfun]. cbn [length]. f_equal.
       fold (up_fun_id (declare f symf (s0 :: r0))). rewrite up_fun_id_declare. exact Hu.
   - (* FuncAssign *) intros x b IH ch e fp id Hne [Hf Hu]. cbn [aname_stmt rname_stmt]. unfold id_errs.
-    rewrite gen_funcdef_checked.
+    unfold funcdef_errs, funcdef_errs_pol. rewrite gen_funcdef_checked.
     rewrite chain_lookup_flat. pose proof (lookup_rel fp x _ _ Hf) as Hl.
     assert (Hbody : aname_block (mkn false [] :: mkn true [] :: ch) b = [] <-> rname_block (x :: fp) e b = true).
     { apply IH; [discriminate|]. split.
@@ -383,12 +383,13 @@ Proof.
       - unfold up_fun_id. cbn [filter nfun length]. fold (up_fun_id ch). rewrite Hu. reflexivity. }
     destruct (lookup x (flat ch)) as [y|], (rlookup x e) as [d|]; try contradiction.
     + rewrite (access_use ch fp y d Hu Hl). rewrite !errs_app_nil.
-      assert (Hc : ((if use_ok fp d then [] else [(id, KUpvalue)]) = [] /\ const_errs id (Some y) = []) <-> assign_ok fp d = true).
+      assert (Hc : ((if use_ok fp d then [] else [(id, KUpvalue)]) = [] /\
+                    match sar y with Some _ => [] | None => const_errs id (Some y) end = []) <-> funcassign_ok fp d = true).
       { destruct d as [q o|a]; simpl in Hl.
         - destruct Hl as (H1 & H2 & H3 & H4). unfold const_errs. rewrite H1, H2.
           destruct q; simpl; try (split; [intros [_ Hx]; discriminate Hx | discriminate]).
           destruct (path_eqb o fp); simpl; split; auto; try discriminate. intros [Hx _]; discriminate Hx.
-        - unfold const_errs. rewrite Hl. simpl. split; [intros [_ Hx]; discriminate Hx | discriminate]. }
+        - rewrite Hl. simpl. split; auto. }
       rewrite andb_true_iff. rewrite <- Hc, <- Hbody. tauto.
     + split; [intro Hx; discriminate Hx | intro Hx; discriminate Hx].
   - (* Call *) intros f n ch e fp id Hne [Hf Hu]. cbn [aname_stmt rname_stmt].
@@ -431,7 +432,7 @@ Lemma gen_jump_check_present : gen_break_continue_check_defer_block = true.
 Proof. reflexivity. Qed.
 
 Lemma recorded_case_id : forall c, recorded_case c = c.
-Proof. intro c. unfold recorded_case. rewrite gen_switchcase_fixed. reflexivity. Qed.
+Proof. intro c. unfold recorded_case, recorded_case_pol. rewrite gen_switchcase_fixed. reflexivity. Qed.
 
 Definition block_rel (ch:list fscope) (ftok:bool) : Prop :=
   match ch with
@@ -440,7 +441,7 @@ Definition block_rel (ch:list fscope) (ftok:bool) : Prop :=
   end.
 
 Lemma break_ok_plain : forall s ch, fl s = false -> ff s = false -> fdb s = false -> break_ok (s :: ch) = break_ok ch.
-Proof. intros s ch H1 H2 H3. unfold break_ok, loop_found. simpl. rewrite H1, H2, H3. reflexivity. Qed.
+Proof. intros s ch H1 H2 H3. unfold break_ok, break_ok_pol, loop_found. simpl. rewrite H1, H2, H3. reflexivity. Qed.
 
 Lemma block_rel_plain : forall ch ftok, block_rel (plain_scope :: ch) ftok.
 Proof. intros. exact I. Qed.
@@ -556,7 +557,7 @@ Proof.
     destruct r as [|cid2 cv2 b2 r2].
     + rewrite Hft. apply orb_true_r.
     + cbn [ncases] in Hc. apply orb_true_iff. left. apply Nat.ltb_lt.
-      unfold recorded_case. destruct gen_switchcase_index_is_loop_var; lia.
+      unfold recorded_case, recorded_case_pol. destruct gen_switchcase_index_is_loop_var; lia.
 Qed.
 
 (* ================================================================== whole programs *)
@@ -696,3 +697,67 @@ Example labels_conservative :
   let p := BCons 1 (Defer BNil) (BCons 2 (Label 1) (BCons 3 (Goto 1) BNil)) in
   rule_labels p = true /\ off_labels p = [(3%nat, KGotoDefer)].
 Proof. split; vm_compute; reflexivity. Qed.
+
+(* ================================================================== the scraped checks are needed *)
+(* Each pin above enters a soundness proof only through [rewrite gen_..._checked].  The companions below state
+   what the pinned decision function does under the OTHER policy: it lets through a concrete input that the
+   policy-on function (and the rule) refuses.  So a checkout in which the scraped fact flips cannot keep the
+   theorems: the pin fails, and the decision function is shown here to differ on a witness. *)
+Definition two_case_last (pol:bool) : list fscope := [mkf false false false (Some (recorded_case_pol pol 2, 2%nat, false))].
+
+Lemma switchcase_index_needed :
+  fall_errs (two_case_last false) 7 false true = [] /\ fall_errs (two_case_last true) 7 false true = [(7%nat, KFall)].
+Proof. split; reflexivity. Qed.
+
+Lemma jump_check_needed :
+  break_ok_pol false [defer_scope; loop_scope] = true /\ break_ok_pol true [defer_scope; loop_scope] = false /\
+  rflow_stmt false Break = false.
+Proof. repeat split; reflexivity. Qed.
+
+Definition nested_chain : list nscope := [mkn false []; mkn true []; mkn false [(1%nat, mksym QVar None 1)]; mkn true []].
+
+Lemma forced_check_needed :
+  fst (forced_errs_pol false nested_chain 7 1) = [] /\ fst (forced_errs_pol true nested_chain 7 1) = [(7%nat, KUpvalue)] /\
+  use_ok [9%nat] (DVar QVar []) = false.
+Proof. repeat split; reflexivity. Qed.
+
+(* ::l1:: defer goto l1 end : the frames of the goto *)
+Definition goto_in_defer : list lframe := [mkl [] [] true; mkl [MLabel 1] [] false].
+
+Lemma goto_check_needed :
+  agoto_pol false 7 1 goto_in_defer = [] /\ agoto_pol true 7 1 goto_in_defer = [(7%nat, KGotoDefer)] /\
+  goto_leaves_defer 1 goto_in_defer = true.
+Proof. repeat split; reflexivity. Qed.
+
+Lemma call_recheck_needed : forall t b sg v, type_info t = Some (b, sg) -> is_inrange b sg v = false ->
+  conv_errs_pol false 7 t v true = [] /\ conv_errs_pol true 7 t v true = [(7%nat, KRange)].
+Proof. intros t b sg v Ht Hr. unfold conv_errs_pol. rewrite Ht, Hr. split; reflexivity. Qed.
+
+Lemma funcdef_check_needed :
+  funcdef_errs_pol false 7 (Some (mksym QConst None 1)) = [] /\
+  funcdef_errs_pol true 7 (Some (mksym QConst None 1)) = [(7%nat, KConstAssign)] /\
+  funcassign_ok [] (DVar QConst []) = false.
+Proof. repeat split; reflexivity. Qed.
+
+(* the exemption of 1fc2b5c: a declared function is redefinable under either policy *)
+Lemma funcdef_function_exempt : forall pol a fd, funcdef_errs_pol pol 7 (Some (mksym QVar (Some a) fd)) = [].
+Proof. intros. reflexivity. Qed.
+
+Definition checks_needed : Prop :=
+  (fall_errs (two_case_last false) 7 false true = [] /\ fall_errs (two_case_last true) 7 false true = [(7%nat, KFall)]) /\
+  (break_ok_pol false [defer_scope; loop_scope] = true /\ break_ok_pol true [defer_scope; loop_scope] = false /\
+   rflow_stmt false Break = false) /\
+  (fst (forced_errs_pol false nested_chain 7 1) = [] /\ fst (forced_errs_pol true nested_chain 7 1) = [(7%nat, KUpvalue)] /\
+   use_ok [9%nat] (DVar QVar []) = false) /\
+  (agoto_pol false 7 1 goto_in_defer = [] /\ agoto_pol true 7 1 goto_in_defer = [(7%nat, KGotoDefer)] /\
+   goto_leaves_defer 1 goto_in_defer = true) /\
+  (forall t b sg v, type_info t = Some (b, sg) -> is_inrange b sg v = false ->
+   conv_errs_pol false 7 t v true = [] /\ conv_errs_pol true 7 t v true = [(7%nat, KRange)]) /\
+  (funcdef_errs_pol false 7 (Some (mksym QConst None 1)) = [] /\
+   funcdef_errs_pol true 7 (Some (mksym QConst None 1)) = [(7%nat, KConstAssign)] /\
+   funcassign_ok [] (DVar QConst []) = false).
+
+Lemma checks_needed_thm : checks_needed.
+Proof.
+  repeat apply conj; try reflexivity. exact call_recheck_needed.
+Qed.
